@@ -14,6 +14,7 @@
    never touches the terminator after it located it).  A read or a write at
    an index outside that list makes the model function return None. *)
 From Coq Require Import List ZArith Bool Arith.
+From RtoscV Require Import Osc.OscModel Ports.MetaModel Ports.NameModel.
 Import ListNotations.
 Local Open Scope Z_scope.
 
@@ -158,3 +159,311 @@ Definition stack_step (st : list str) (c : str) : list str :=
   if is_dotdot c then tl st else c :: st.
 
 Definition stack_spec (cs : list str) : list str := rev (fold_left stack_step cs []).
+
+(* ======================================================================== *)
+(* Part 2: Ports::operator[] and Ports::apropos                             *)
+(* ======================================================================== *)
+
+(* const Port *Ports::operator[](const char *name) const:
+     while( *_needle && *_needle==*_haystack)_needle++,_haystack++;
+     if( *_needle == 0 && ( *_haystack == ':' || *_haystack == '\0')) return &port; *)
+Fixpoint index_match (needle hay : str) : bool :=
+  match needle with
+  | [] => (hd0 hay =? 58) || (hd0 hay =? 0)
+  | n :: nt =>
+      match hay with
+      | h :: ht => if n =? h then index_match nt ht else false
+      | [] => false
+      end
+  end.
+
+Fixpoint index_from (t : list port) (i : nat) (name : str) : option nat :=
+  match t with
+  | [] => None
+  | p :: r => if index_match name (pname p) then Some i else index_from r (S i) name
+  end.
+Definition index_op (t : list port) (name : str) : option nat := index_from t 0%nat name.
+
+Inductive ares :=
+| ANull                          (* NULL *)
+| AFound (id : list nat)         (* the port with that index path *)
+| ACrash                         (* strchr(path,'/') returned NULL and was dereferenced *)
+| AUnsupported.
+
+Definition aprepend (i : nat) (r : ares) : ares :=
+  match r with AFound id => AFound (i :: id) | x => x end.
+
+(* strchr(path,'/')[1] != 0 ; None = no '/' in path *)
+Fixpoint after_first_slash (path : str) : option bool :=
+  match path with
+  | [] => None
+  | c :: t => if c =? 47 then Some (negb (hd0 t =? 0)) else after_first_slash t
+  end.
+
+(* the second loop of apropos: "now find the best port" *)
+Fixpoint apropos_leaf (t : list port) (i : nat) (path : str) : ares :=
+  match t with
+  | [] => ANull
+  | p :: r =>
+      if is_nil path then apropos_leaf r (S i) path
+      else if prefixb path (pname p) then AFound [i]
+      else match match_path false (pname p) path with
+           | MSome _ _ => AFound [i]
+           | MNull => apropos_leaf r (S i) path
+           | MUnsupported => AUnsupported
+           end
+  end.
+
+(* p.ports->apropos(path), p.ports non-NULL.
+   [pinned] = true is the code before the commit "fix: apropos returned NULL
+   for the address of a sub-tree ...": the decision to descend looked at the
+   byte after the FIRST '/' of path (strchr(path,'/')[1]) instead of at
+   *path_end; kept for the regression witness in PathRegress.v *)
+Fixpoint apropos_port (pinned : bool) (p : port) (path0 : str) {struct p} : ares :=
+  match p with
+  | Port _ _ None => ANull
+  | Port _ _ (Some t) =>
+      let path := match path0 with c :: r => if c =? 47 then r else path0 | [] => path0 end in
+      (fix loop1 (l : list port) (i : nat) {struct l} : ares :=
+         match l with
+         | [] => apropos_leaf t 0%nat path
+         | q :: r =>
+             if has_char 47 (pname q) then
+               match match_path false (pname q) path with
+               | MSome _ path_end =>
+                   match psub q with
+                   | Some _ =>
+                       if pinned then
+                         match after_first_slash path with
+                         | None => ACrash
+                         | Some true => aprepend i (apropos_port pinned q path_end)
+                         | Some false => AFound [i]
+                         end
+                       else
+                         (* (port.ports && *path_end) ? port.ports->apropos(path_end) : &port *)
+                         if negb (is_nil path_end) then aprepend i (apropos_port pinned q path_end)
+                         else AFound [i]
+                   | None => AFound [i]
+                   end
+               | MNull => loop1 r (S i)
+               | MUnsupported => AUnsupported
+               end
+             else loop1 r (S i)
+         end) t 0%nat
+  end.
+
+Definition apropos (root : list port) (path : str) : ares :=
+  apropos_port false (Port [] None (Some root)) path.
+Definition apropos_pinned (root : list port) (path : str) : ares :=
+  apropos_port true (Port [] None (Some root)) path.
+
+(* ======================================================================== *)
+(* Part 3: path_search                                                      *)
+(* ======================================================================== *)
+
+(* one found port: the name pointer (None after the unique-prefix pass marked
+   it unused), the blob data pointer (None = NULL) and the blob length *)
+Record entry := { e_name : option str; e_data : option (list byte); e_len : Z }.
+
+Inductive sres := SOk (es : list entry) | SOob | SUnsupported | SCrash.
+
+(* the collection lambda fn(p); None = MetaContainer::length read outside
+   the block *)
+Definition collect_one (needle : str) (p : port) : option (list entry) :=
+  if prefixb needle (pname p) then
+    match pmeta p with
+    | Some ((c :: _) as m) =>
+        if c =? 0 then Some [{| e_name := Some (pname p); e_data := None; e_len := 0 |}]
+        else match meta m with
+             | Some stripped =>
+                 match length_ stripped with
+                 | Some n => Some [{| e_name := Some (pname p); e_data := Some m; e_len := n |}]
+                 | None => None
+                 end
+             | None => None
+             end
+    | Some [] => None                                (* reading *p.metadata of an empty block *)
+    | None => Some [{| e_name := Some (pname p); e_data := None; e_len := 0 |}]
+    end
+  else Some [].
+
+Fixpoint collect (needle : str) (t : list port) : option (list entry) :=
+  match t with
+  | [] => Some []
+  | p :: r =>
+      match collect_one needle p, collect needle r with
+      | Some a, Some b => Some (a ++ b)
+      | _, _ => None
+      end
+  end.
+
+(* strcmp(a, b) < 0 on unsigned bytes *)
+Fixpoint str_ltb (a b : str) : bool :=
+  match a, b with
+  | [], [] => false
+  | [], _ :: _ => true
+  | _ :: _, [] => false
+  | x :: a', y :: b' => if x =? y then str_ltb a' b' else x <? y
+  end.
+
+(* is_less / is_less_2 on pairs; a NULL name sorts last *)
+Definition entry_ltb (a b : entry) : bool :=
+  match e_name a, e_name b with
+  | None, _ => false
+  | Some _, None => true
+  | Some x, Some y => str_ltb x y
+  end.
+
+(* std::sort is modelled as a stable insertion sort; the order it gives to
+   entries with equal names is unspecified and canonicalised in the tie *)
+Fixpoint insert_sorted (x : entry) (l : list entry) : list entry :=
+  match l with
+  | [] => [x]
+  | y :: r => if entry_ltb y x then y :: insert_sorted x r else x :: l
+  end.
+
+Fixpoint sort_entries (l : list entry) : list entry :=
+  match l with
+  | [] => []
+  | x :: r => insert_sorted x (sort_entries r)
+  end.
+
+Fixpoint last_char (s : str) : option byte :=
+  match s with
+  | [] => None                         (* s[strlen-1] with strlen = 0: one before the string *)
+  | [c] => Some c
+  | _ :: t => last_char t
+  end.
+
+(* the unique-prefix pass over the sorted array:
+     if(strlen_prev < strlen(args[pos].s) &&
+        0 == strncmp(args[pos].s, args[prev_pos].s, strlen_prev) &&
+        args[prev_pos].s[strlen_prev-1] == '/')  mark unused  else  prev = this *)
+Fixpoint mark_pass (prev : str) (l : list entry) : option (list entry) :=
+  match l with
+  | [] => Some []
+  | e :: r =>
+      match e_name e with
+      | None => None                                  (* strlen(NULL) *)
+      | Some cur =>
+          if (Nat.ltb (length prev) (length cur)) && prefixb prev cur then
+            match last_char prev with
+            | None => None
+            | Some c =>
+                if c =? 47 then
+                  match mark_pass prev r with
+                  | Some r' => Some ({| e_name := None; e_data := e_data e; e_len := e_len e |} :: r')
+                  | None => None
+                  end
+                else
+                  match mark_pass cur r with
+                  | Some r' => Some (e :: r')
+                  | None => None
+                  end
+            end
+          else
+            match mark_pass cur r with
+            | Some r' => Some (e :: r')
+            | None => None
+            end
+      end
+  end.
+
+Definition count_unused (l : list entry) : nat :=
+  length (filter (fun e => match e_name e with None => true | Some _ => false end) l).
+
+Definition unique_prefix (sorted : list entry) : option (list entry) :=
+  match sorted with
+  | [] => Some []
+  | [e] => Some [e]
+  | e0 :: r =>
+      match e_name e0 with
+      | None => None
+      | Some n0 =>
+          match mark_pass n0 r with
+          | None => None
+          | Some r' =>
+              let marked := e0 :: r' in
+              let resorted := sort_entries marked in
+              (* types[(n_paths_found - unused_paths)<<1] = 0 *)
+              Some (firstn (length marked - count_unused marked) resorted)
+          end
+      end
+  end.
+
+Inductive sopt := Unmodified | Sorted | SortedUniquePrefix.
+
+(* void path_search(root, str, needle, types, max_types, args, max_args, opts,
+   reply_with_query = false), for buffers that are large enough *)
+Definition path_search (root : list port) (loc needle : str) (opt : sopt) : sres :=
+  let found :=
+    if is_nil loc || streqb loc [47] then Some (Some root, None)
+    else match apropos root loc with
+         | ANull => Some (None, None)
+         | AFound id =>
+             match get_port root id with
+             | Some (Port _ _ (Some s)) => Some (Some s, None)
+             | Some p => Some (None, Some p)
+             | None => None
+             end
+         | ACrash => None
+         | AUnsupported => None
+         end in
+  match found with
+  | None => match apropos root loc with AUnsupported => SUnsupported | _ => SCrash end
+  | Some (ports, single) =>
+      let collected :=
+        match ports, single with
+        | Some t, _ => collect needle t
+        | None, Some p => collect_one needle p
+        | None, None => Some []
+        end in
+      match collected with
+      | None => SOob
+      | Some es =>
+          match opt with
+          | Unmodified => SOk es
+          | Sorted => SOk (sort_entries es)
+          | SortedUniquePrefix =>
+              match unique_prefix (sort_entries es) with
+              | Some r => SOk r
+              | None => SOob
+              end
+          end
+      end
+  end.
+
+(* ---- Spec side --------------------------------------------------------------- *)
+(* what the property text says a child search returns, over (name, metadata) *)
+Definition below (e x : str) : bool :=
+  Nat.ltb (length e) (length x) && prefixb e x &&
+  match last_char e with Some c => c =? 47 | None => false end.
+
+Definition spec_children (needle : str) (t : list port) : list port :=
+  filter (fun p => prefixb needle (pname p)) t.
+
+Definition spec_unique (names : list str) (l : list port) : list port :=
+  filter (fun p => negb (existsb (fun e => below e (pname p)) names)) l.
+
+(* ---- the reply message (second overload) ------------------------------------ *)
+(* size_t path_search(root, m, max_ports, msgbuf, bufsize, opts, false):
+   rtosc_amessage(msgbuf, bufsize, "/paths", types, args) over the found
+   entries; the result is (return value, msgbuf afterwards) *)
+Definition paths_addr : str := [47; 112; 97; 116; 104; 115].
+
+Definition reply_tags (es : list entry) : list byte := concat (map (fun _ => [115; 98]) es).
+Definition reply_args (es : list entry) : list payload :=
+  flat_map (fun e => [PStr (match e_name e with Some n => n | None => [] end);
+                      PBlob (e_len e) (e_data e)]) es.
+
+Inductive rres := ROk (ret : Z) (buf : list byte) | RFail (why : sres).
+
+Definition path_search_msg (root : list port) (loc needle : str) (opt : sopt) (buf : list byte) : rres :=
+  match path_search root loc needle opt with
+  | SOk es =>
+      match amessage (Some buf) paths_addr (reply_tags es) (reply_args es) with
+      | Ok (n, Some b) => ROk n b
+      | _ => RFail SOob
+      end
+  | x => RFail x
+  end.
